@@ -290,6 +290,49 @@ func init() {
 		sc.Horizon = 800
 		return sc
 	})
+	// the follower that was caught up by InstallSnapshot and then by AppendEntries receives the same InstallSnapshot
+	// once more (a late duplicate) and is asked for a snapshot of its own right afterwards: whatever it persists
+	// must be the committed history at the index it is stamped with
+	mkDupIS := func(base string) func() *Scenario {
+		return func() *Scenario {
+			sc := scenarioByName(base)
+			sc.Steps = append(sc.Steps,
+				stepDo("redeliver-install-snapshot", func(w *World) bool {
+					if !whenSettled(w) {
+						return false
+					}
+					f := w.nodes[w.vals["iso"]]
+					if !f.up || f.r == nil || f.r.AppliedIndex() != w.leader().r.CommitIndex() {
+						return false
+					}
+					for _, m := range w.msgs {
+						if m.Kind == "IS" && m.To == f.id && m.St == mReplied {
+							return true
+						}
+					}
+					return false
+				}, func(w *World) {
+					for i := len(w.msgs) - 1; i >= 0; i-- {
+						if m := w.msgs[i]; m.Kind == "IS" && m.To == w.vals["iso"] && m.St == mReplied {
+							w.vals["redelivered"] = 1
+							w.deliver(m, true)
+							return
+						}
+					}
+				}),
+				stepDo("snapshot-on-follower", func(w *World) bool { return w.netIdle() }, func(w *World) {
+					if f := w.nodes[w.vals["iso"]]; f.up && f.r != nil {
+						w.snapshot(f)
+					}
+				}),
+				stepDo("apply6", whenSettled, func(w *World) { w.apply(w.leader(), 0) }),
+			)
+			sc.Horizon += 200
+			return sc
+		}
+	}
+	regScenario("snap3-dup-is", mkDupIS("snap3"))
+	regScenario("snap3-trail1-dup-is", mkDupIS("snap3-trail1"))
 	// a membership change is requested from a new leader before its no-op is committed (it must wait)
 	regScenario("member-early", func() *Scenario {
 		ns := append(voters(3), NodeSpec{Suffrage: raft.Nonvoter, StartUp: true})
